@@ -205,6 +205,7 @@ package objects
 // not shared with the resources of the allocations listed on the node nor with queue ledgers
 //@ global forall n *Node, k string :: n.allocations[k] != nil ==> okR(n.allocations[k].allocatedResource) && sepN(n, n.allocations[k].allocatedResource)
 //@ global forall n *Node, q *Queue :: sepN(n, q.allocatedResource)
+//@ global forall n *Node, a *Allocation :: okR(a.allocatedResource) && sepN(n, a.allocatedResource)
 
 //@ invariant[own] Node as inv(sn): sn != nil && okR(sn.totalResource) && okR(sn.allocatedResource) && okR(sn.occupiedResource) && okR(sn.availableResource) && sepR(sn.totalResource, sn.allocatedResource) && sepR(sn.totalResource, sn.occupiedResource) && sepR(sn.totalResource, sn.availableResource) && sepR(sn.allocatedResource, sn.occupiedResource) && sepR(sn.allocatedResource, sn.availableResource) && sepR(sn.occupiedResource, sn.availableResource)
 //@ invariant[L1] Node as inv(sn): forall t Key :: rv(sn.availableResource, t) == rv(sn.totalResource, t) - rv(sn.allocatedResource, t) - rv(sn.occupiedResource, t)
@@ -364,7 +365,7 @@ package objects
 //@   props C01 C02 C03
 //@   sweep
 //@   mode nopanic=off
-//@   requires inv(node) && okR(ask.allocatedResource) && sepN(node, ask.allocatedResource)
+//@   holds inv(node)
 //@   at[prechecked] call objects.Node.TryAddAllocation#1: assert (forall t Key :: has(ask.allocatedResource, t) ==> rv(ask.allocatedResource, t) <= posv(rv(node.availableResource, t))) && (exists t Key :: rv(ask.allocatedResource, t) > 0)
 //@   at[reservedfor] call objects.Node.TryAddAllocation#1: assert len(node.reservations) == 0 || (ask.allocationKey != "" && node.reservations[ask.allocationKey] != nil)
 //@   at[predicate] call objects.Node.TryAddAllocation#1: assert predOK(ask.allocationKey, node.NodeID) && arg0 == node && arg1 == ask
@@ -375,3 +376,35 @@ package objects
 //@   at[commitlisted] call objects.Application.allocateAsk#1: assert node.allocations[ask.allocationKey] == ask && arg1 == ask
 //@   at[revertnode] call objects.Node.RemoveAllocation#1 after: assert forall t Key :: rv(node.availableResource, t) == old(rv(node.availableResource, t)) && rv(node.allocatedResource, t) == old(rv(node.allocatedResource, t)) && rv(node.occupiedResource, t) == old(rv(node.occupiedResource, t))
 //@   at[revertqueue] call objects.Node.RemoveAllocation#1 after: assert forall q *Queue :: q.allocatedResource == old(q.allocatedResource)
+
+// every caller of tryNode: the node is schedulable on the path that reaches the bind
+//@ func (sa *Application) tryNodes$calls(objects.Application.tryNode)(node *Node) (cont bool)
+//@   props C01
+//@   sweep
+//@   mode nopanic=off
+//@   at[schedulable] call objects.Application.tryNode#1: assert arg1.schedulable && arg1 == node
+
+//@ func (sa *Application) tryNodesNoReserve$calls(objects.Application.tryNode)(node *Node) (cont bool)
+//@   props C01
+//@   sweep
+//@   mode nopanic=off
+//@   at[schedulable] call objects.Application.tryNode#1: assert arg1.schedulable && arg1 == node
+
+//@ func (sa *Application) tryRequiredNode(request *Allocation, getNodeFn func(string) *Node) (res *AllocationResult)
+//@   props C01
+//@   sweep
+//@   mode nopanic=off
+//@   at[schedulable] call objects.Application.tryNode#1: assert arg1.schedulable
+//@   at[samenode] call objects.Application.tryNode#1: assert arg2 == request && arg1 == node
+
+//@ func (sa *Application) tryReservedAllocate(headRoom *resources.Resource, nodeIterator func() NodeIterator) (res *AllocationResult)
+//@   props C01 C05
+//@   sweep
+//@   mode nopanic=off
+//@   at[schedulable] call objects.Application.tryNode#1: assert arg1.schedulable
+
+// the non-forced bind gate has exactly two callers; both carry the gate obligations (tryNode above, the cross-node
+// placeholder swap in tryPlaceholderAllocate under C06)
+//@ callersof objects.Node.TryAddAllocation props C01 : objects.Application.tryNode objects.Application.tryPlaceholderAllocate$calls(objects.Node.TryAddAllocation)
+//@ callersof objects.Node.addAllocationInternal props C01 : objects.Node.TryAddAllocation objects.Node.AddAllocation
+//@ callersof objects.Application.tryNode props C01 : objects.Application.tryNodes$calls(objects.Application.tryNode) objects.Application.tryNodesNoReserve$calls(objects.Application.tryNode) objects.Application.tryRequiredNode objects.Application.tryReservedAllocate
